@@ -282,6 +282,30 @@ def run(repo: Repo, rep: Report, tier: str) -> None:
             rep.error("R12.3: could not locate the RUNTIME_FILES loop header / write in the CFG")
 
     # ---------------------------------------------------------------- R12.4 registrations
+    # producers of *relative* module paths (their result may start with "."): such a value may only feed add_relative_import - passed to
+    # add_import it is emitted verbatim as `from ...core.x import y`, which can climb above the top-level package
+    rc = repo.module("context.render_context").classes.get("RenderContext")
+    REL: Set[str] = set()
+    if rc is not None:
+        def _rel_literal(e: ast.AST) -> bool:
+            if isinstance(e, ast.BinOp) and isinstance(e.op, ast.Add) and isinstance(e.left, ast.Constant) and isinstance(e.left.value, str) and e.left.value.startswith("."):
+                return True
+            if isinstance(e, ast.JoinedStr) and e.values and isinstance(e.values[0], ast.Constant) and str(e.values[0].value).startswith("."):
+                return True
+            if isinstance(e, ast.BinOp) and isinstance(e.op, ast.Mult) and any(isinstance(x, ast.Constant) and x.value == "." for x in (e.left, e.right)):
+                return True
+            return False
+        for _ in range(4):
+            for mname, m in rc.methods.items():
+                if mname in REL:
+                    continue
+                for n in own_nodes(m.node):
+                    if isinstance(n, (ast.Return, ast.Assign)) and n.value is not None:
+                        if any(_rel_literal(x) for x in ast.walk(n.value)):
+                            REL.add(mname)
+                        if isinstance(n, ast.Return) and any(isinstance(x, ast.Call) and isinstance(x.func, ast.Attribute) and x.func.attr in REL for x in ast.walk(n.value)):
+                            REL.add(mname)
+    rep.count("R12.4:relative_path_producers", sorted(REL))
     n_sites = 0
     for mn in live:
         mod = repo.modules[mn]
@@ -306,6 +330,15 @@ def run(repo: Repo, rep: Report, tier: str) -> None:
                 if arg is None:
                     continue
                 n_sites += 1
+                from sa.match import Locals as _L12
+
+                ai = _L12(fn.node).inline(arg) if not isinstance(fn.node, ast.Lambda) else arg
+                relp = [x.func.attr for x in ast.walk(ai) if isinstance(x, ast.Call) and isinstance(x.func, ast.Attribute) and x.func.attr in REL]
+                if relp and c.func.attr in ("add_import", "add_plain_import", "add_conditional_import"):
+                    rep.violation("R12.4", f"{fn.module.relpath}:{fn.qualname} `{c.func.attr}` fed by a relative-path producer", f"{fn.fq}|relative-path-into-absolute-import|{relp[0]}",
+                                  f"`{norm(c)[:80]}`: `{relp[0]}()` can return a dot-relative path, which `{c.func.attr}` emits verbatim: for a sibling core the "
+                                  "generated module says `from ...core.x import y` and fails with 'attempted relative import beyond top-level package'", fn.loc(c))
+                    continue
                 _check_module_expr(rep, "R12.4", fn, c, arg)
     rep.count("R12.4:registration_sites", n_sites)
     rep.require(n_sites >= 150, f"R12.4: only {n_sites} import-registration call sites found (floor 150)")
